@@ -57,6 +57,10 @@ type C11Plan struct {
 	// Wire: every client task talks to the shim through its own connection served by yubiagent.ServeAgent on
 	// its own task (as the agent daemon does), instead of calling the shim directly.
 	Wire     bool           `json:"wire,omitempty"`
+	// Late: which reads of the shim from the underlying agent, made under a deadline the shim armed itself and
+	// finding nothing yet, time out because the agent is slower than that deadline (its reply arrives afterwards).
+	// Code that arms no deadline is not affected.
+	Late     []int          `json:"late,omitempty"`
 	Strategy sched.Strategy `json:"strategy"`
 }
 
@@ -135,6 +139,11 @@ func genC11(r *sim.Rng, tier string) any {
 		p.Tasks = append(p.Tasks, ops)
 		if total >= maxOps {
 			break
+		}
+	}
+	if r.Bool(0.35) {
+		for i := 0; i < r.Range(1, 2); i++ {
+			p.Late = append(p.Late, r.Intn(4))
 		}
 	}
 	p.Strategy = sched.Strategy{Kind: pick(r, []string{"random", "random", "pct", "pct", "rr"}), Seed: r.Uint64(), D: r.Range(1, 3), Horizon: 60 * total}
@@ -412,6 +421,7 @@ func execC11(t *testing.T, raw json.RawMessage) *sim.Outcome {
 	s := sched.New(p.Strategy, 40000)
 	s.KeepLog = false
 	a, b := schedconn.Pipe("upstream")
+	a.LateAt = p.Late
 	peer := &refagent.Peer{Agent: ref}
 	s.Go("upstream", true, func() { peer.Serve(b) })
 
@@ -668,6 +678,14 @@ func execC11(t *testing.T, raw json.RawMessage) *sim.Outcome {
 		o.Fail("C11.own_reply", "foreign_reply", 0, "%s", e)
 	}
 	checkDiscipline(o, a, b)
+	if a.Expired > 0 {
+		// The shim gave up on a reply: what the abandoned request did to the underlying agent and which later
+		// calls may legitimately fail is no longer determined, so only completion, crashes, reply ownership and
+		// transport discipline are judged for this run.
+		o.Fault("upstream_slower_than_deadline")
+		o.Signature = fmt.Sprintf("late:%d:%s", a.Expired, s.OrderHash())
+		return o
+	}
 	// linearizability against the sequential model
 	ops := []porcupine.Operation{{ClientId: len(p.Tasks) + 1, Input: linIn{Op: COp{Op: "init"}, Init: model}, Output: cOut{}, Call: -2, Return: -1}}
 	maxRet := 0
